@@ -883,8 +883,12 @@ func vReplayHist(sys vSystem, hist []string) {
 	for i, s := range hist {
 		ops[i] = vParseOp(s)
 	}
+	lastOnly := false
+	if lo, ok := sys.(interface{ ReplayLastOnly() bool }); ok {
+		lastOnly = lo.ReplayLastOnly()
+	}
 	for i, o := range ops {
-		sys.Apply(o, ops[:i], true)
+		sys.Apply(o, ops[:i], !lastOnly || i == len(ops)-1)
 	}
 }
 
